@@ -25,12 +25,12 @@ _TIER = ['quick']
 _FACTS = [None]
 
 STEP_KINDS = ['i', 'n', 'sK', 'sE', 'sB']
-ENDS = ['ret', 'ValueError', 'OwnTimeout', 'KeyboardInterrupt']
+ENDS = ['ret', 'ValueError', 'OwnTimeout', 'KeyboardInterrupt', 'retExc']
 
 
 def scope_text(tier):
     return ('single call: all %d worker scripts (<= 3 steps from {interruptible, native, swallow-KeyboardInterrupt, swallow-Exception, '
-            'swallow-BaseException} x 4 endings), deviation bound %d; scripts with 0 (thorough: <= 1) steps unbounded; back-to-back pairs; %s'
+            'swallow-BaseException} x 5 endings incl. returning an exception instance), deviation bound %d; scripts with 0 (thorough: <= 1) steps unbounded; back-to-back pairs; %s'
             % (len(all_scripts()), 3 if tier == 'quick' else 4, 'nested calls (thorough)' if tier != 'quick' else 'nested: 4 scenarios'))
 
 
@@ -116,9 +116,9 @@ def check(scenario, res):
             v('wrong-return-value', call=ci)
         if idx_timeout is None:
             # the timeout never fired: the function's own result must come back
-            if end == 'ret' and rec['outcome'] != 'return':
+            if end in ('ret', 'retExc') and rec['outcome'] != 'return':
                 v('result-lost-without-timeout', call=ci, outcome=rec['outcome'], exc=rec.get('exc_type'))
-            if end != 'ret' and not (rec['outcome'] == 'raise' and rec.get('exc_is_own')):
+            if end not in ('ret', 'retExc') and not (rec['outcome'] == 'raise' and rec.get('exc_is_own')):
                 v('own-exception-replaced', call=ci, raised=end, outcome=rec['outcome'], exc=rec.get('exc_type'))
         else:
             if rec['outcome'] != 'raise' or not rec.get('exc_exact_builtin_timeout'):
@@ -155,7 +155,7 @@ def run_case(case):
         feats['swallow'] = 1
     if '"n"' in flat:
         feats['native'] = 1
-    if any(c['end'] != 'ret' for c in case['calls']):
+    if any(c['end'] not in ('ret', 'retExc') for c in case['calls']):
         feats['own_exception'] = 1
 
     def chk(r):
